@@ -40,6 +40,8 @@ def scale_docs():
         out.append(("link%d" % n, " ".join("[t%d][l%d] ![i][l%d]" % (i, i, i) for i in r) + "\n\n" + "".join("[l%d]: http://x.y/%d \"t\" width=%dpx\n" % (i, i, i) for i in r)))
         out.append(("head%d" % n, "{{TOC}}\n\n" + "".join("%s h%d\n\ntext [h%d][]\n\n" % ("#" * (1 + i % 6), i, (i * 7) % n) for i in r)))
         out.append(("meta%d" % n, "".join("key%d: value [%%key%d]\n" % (i, (i * 3) % n) for i in r) + "\nbody [%%key1] [%%key%d]\n" % (n - 1)))
+    # every note kind called from a heading (headings are rendered again for tables of contents and EPUB navigation)
+    out.append(("headnotes", "# H [?g] [>ab] ab x[^f] y[#c] [?(t) inl] [>(cd) Cd] z[^inline]\n\n{{TOC}}\n\n## Two [?g] ab\n\ntext [?g] [>ab]\n\n[?g]: gl\n[>ab]: abbr\n[^f]: fn\n[#c]: cite\n"))
     out.append(("longabbr", "[>" + "a" * 300 + "]: x\n[>" + "b" * 255 + "]: y\n[>" + "c" * 256 + "]: z\n\n" + "a" * 300 + " " + "b" * 255 + " " + "c" * 256 + "\n"))
     out.append(("inlineabbr", " ".join("[>(ab%d) Abbr %d]" % (i, i) for i in range(300)) + " ab7 ab299\n"))
     out.append(("table", "|" + "c|" * 300 + "\n|" + "-|" * 300 + "\n" + ("|" + "x|" * 300 + "\n") * 30))
